@@ -814,7 +814,14 @@ func (cc *Conn) handleReq(w *responsewriter.ResponseWriter[*Conn], req *pool.Mes
 	// of a request of the peer that happens to have the same ID - that handler may
 	// be waiting for this very response.
 	if req.Type() == message.Confirmable || req.Type() == message.NonConfirmable {
-		l := cc.msgIDMutex.Lock(reqMid)
+		l, ok := cc.msgIDMutex.TryLock(reqMid)
+		if !ok {
+			// A copy of a message that is being handled (a retransmission). Its handler may be
+			// blocked in a request of its own: before waiting for it, let another loop read the
+			// received messages, like every other blocking point of a handler does.
+			cc.receivedMessageReader.TryToReplaceLoop()
+			l = cc.msgIDMutex.Lock(reqMid)
+		}
 		defer l.Unlock()
 	}
 
